@@ -139,6 +139,27 @@ def sh(cmd, **kw):
     return subprocess.run(cmd, shell=True, capture_output=True, text=True, **kw)
 
 
+M += [
+    # refactors added with the seventh wave's oracles (expected silent)
+    ('rawtxs-in-sequential-sub-requests', 'electrumx/server/daemon.py',
+     "        params_iterable = ((hex_hash, 0) for hex_hash in hex_hashes)\n        txs = await self._send_vector('getrawtransaction', params_iterable,\n                                      replace_errs=replace_errs)\n",
+     "        hex_hashes = list(hex_hashes)\n        txs = []\n        for n in range(0, len(hex_hashes), 50):\n            txs += await self._send_vector('getrawtransaction', ((h, 0) for h in hex_hashes[n:n + 50]),\n                                           replace_errs=replace_errs)\n",
+     'C18='),
+    ('peers-subscribe-local-flag', 'electrumx/server/session.py',
+     "        return self.peer_mgr.on_peers_subscribe(self.is_tor())",
+     "        from_tor = bool(self.is_tor())\n        return self.peer_mgr.on_peers_subscribe(from_tor)", 'C19='),
+    ('mempool-label-in-a-local', 'electrumx/server/mempool.py',
+     "                await self.api.on_mempool(touched, height)",
+     "                label = height\n                await self.api.on_mempool(touched, label)", 'C09='),
+    ('forced-reorg-count-clamped-to-height', 'electrumx/server/block_processor.py',
+     "            start = (height - count) + 1",
+     "            count = min(count, height)\n            start = (height - count) + 1", 'C15='),
+    ('headers-subscribe-copy-of-cached', 'electrumx/server/session.py',
+     "        return self.session_mgr.hsub_results",
+     "        return dict(self.session_mgr.hsub_results)", 'C07='),
+]
+
+
 def main():
     names = set(sys.argv[1:])
     if not os.path.isdir(WT):
